@@ -15,25 +15,26 @@ import (
 // Case is one generated workload of one property check, complete enough to be
 // re-evaluated from its JSON form (replay) and to be shrunk structurally.
 type Case struct {
-	Prop   string            `json:"property"`
-	Sub    string            `json:"sub"`
-	Seed   uint64            `json:"seed"`
-	Index  int               `json:"index"`
-	J      *Journal          `json:"journal,omitempty"`
-	L      *Layout           `json:"layout,omitempty"`
-	Ls     []*Layout         `json:"layouts,omitempty"`
-	Files  map[string]string `json:"files,omitempty"`
-	Links  map[string]string `json:"links,omitempty"`
-	Cmd    string            `json:"cmd,omitempty"`
-	Args   []string          `json:"args,omitempty"`
-	ArgSet [][]string        `json:"arg_sets,omitempty"`
-	Val    string            `json:"valuation,omitempty"`
-	Today  string            `json:"today,omitempty"`
-	Scheds []Sched           `json:"scheds,omitempty"`
+	Prop   string              `json:"property"`
+	Sub    string              `json:"sub"`
+	Seed   uint64              `json:"seed"`
+	Index  int                 `json:"index"`
+	J      *Journal            `json:"journal,omitempty"`
+	L      *Layout             `json:"layout,omitempty"`
+	Ls     []*Layout           `json:"layouts,omitempty"`
+	Files  map[string]string   `json:"files,omitempty"`
+	Links  map[string]string   `json:"links,omitempty"`
+	Cmd    string              `json:"cmd,omitempty"`
+	Args   []string            `json:"args,omitempty"`
+	ArgSet [][]string          `json:"arg_sets,omitempty"`
+	Val    string              `json:"valuation,omitempty"`
+	Today  string              `json:"today,omitempty"`
+	Scheds []Sched             `json:"scheds,omitempty"`
 	Faults map[int]simrt.Fault `json:"faults,omitempty"`
-	N      int               `json:"n,omitempty"`
-	Note   string            `json:"note,omitempty"`
-	Gen    *GenCfg           `json:"gen,omitempty"`
+	N      int                 `json:"n,omitempty"`
+	Note   string              `json:"note,omitempty"`
+	Gen    *GenCfg             `json:"gen,omitempty"`
+	Tier   string              `json:"tier,omitempty"`
 }
 
 // Violation is a property violation found on one case.
@@ -79,6 +80,10 @@ type Found struct {
 	Case     *Case      `json:"case"`
 	Original *Case      `json:"original_case,omitempty"`
 	Shrunk   int        `json:"shrink_steps"`
+	// Rendered shows the minimised workload as files, for human readers; the
+	// replay itself is driven by Case.
+	Rendered map[string]string `json:"rendered_files,omitempty"`
+	Replay   string            `json:"how_to_replay,omitempty"`
 }
 
 type JobResult struct {
@@ -233,7 +238,7 @@ func RunJob(job *Job) (res *JobResult) {
 		if c == nil {
 			continue
 		}
-		c.Prop, c.Seed, c.Index = job.Prop, job.Seed, idx
+		c.Prop, c.Seed, c.Index, c.Tier = job.Prop, job.Seed, idx, job.Tier
 		res.Cases++
 		res.Subs[c.Sub]++
 		if len(res.Samples) < 2 || (len(res.Samples) < 6 && res.Subs[c.Sub] == 1) {
@@ -260,7 +265,11 @@ func RunJob(job *Job) (res *JobResult) {
 			small, v2, steps = orig, v, 0
 		}
 		v2.Prop, v2.Sub = job.Prop, small.Sub
-		res.Found = append(res.Found, Found{V: v2, Case: small, Original: orig, Shrunk: steps})
+		fd := Found{V: v2, Case: small, Original: orig, Shrunk: steps, Replay: "bin/check " + job.Prop + " quick --replay <this file>: the case (journal, layout, files, argv, schedules: seed or tape, map order, lock-yield, bias, workers; fault plan) is evaluated again by the same oracle in a fresh process"}
+		if small.J != nil && small.L != nil {
+			fd.Rendered = small.L.Files(small.J)
+		}
+		res.Found = append(res.Found, fd)
 		if len(res.Found) >= 8 {
 			break
 		}
